@@ -19,12 +19,12 @@ theorem bind_dec {α β : Type} (m : PI α) (f : α → PI β) (s s'' : PState) 
 
 /-- generic facts about a completed run -/
 structure Adv (s s' : PState) : Prop where
-  w : W s'
+  w : TW s'
   doom : Doomed s → Doomed s'
   recCur : s'.recCur = s.recCur
   recLimit : s'.recLimit = s.recLimit
 
-theorem Adv.refl (s : PState) (w : W s) : Adv s s := ⟨w, fun h => h, rfl, rfl⟩
+theorem Adv.refl (s : PState) (w : TW s) : Adv s s := ⟨w, fun h => h, rfl, rfl⟩
 
 theorem Adv.trans {a b c : PState} (h1 : Adv a b) (h2 : Adv b c) : Adv a c :=
   ⟨h2.w, fun h => h2.doom (h1.doom h), h2.recCur.trans h1.recCur, h2.recLimit.trans h1.recLimit⟩
@@ -33,7 +33,7 @@ theorem Adv.trans {a b c : PState} (h1 : Adv a b) (h2 : Adv b c) : Adv a c :=
 structure Eat (s s' : PState) (c : List Tok) : Prop where
   toks : Toks s = c ++ Toks s'
   doom : Doomed s' ↔ Doomed s
-  w : W s'
+  w : TW s'
   accept : s'.acceptErrors = s.acceptErrors
   recCur : s'.recCur = s.recCur
   recLimit : s'.recLimit = s.recLimit
@@ -41,16 +41,16 @@ structure Eat (s s' : PState) (c : List Tok) : Prop where
 theorem Eat.adv {s s' : PState} {c : List Tok} (h : Eat s s' c) : Adv s s' :=
   ⟨h.w, h.doom.mpr, h.recCur, h.recLimit⟩
 
-theorem Eat.refl (s : PState) (w : W s) : Eat s s [] := ⟨rfl, Iff.rfl, w, rfl, rfl, rfl⟩
+theorem Eat.refl (s : PState) (w : TW s) : Eat s s [] := ⟨rfl, Iff.rfl, w, rfl, rfl, rfl⟩
 
 theorem Eat.trans {a b c : PState} {x y : List Tok} (h1 : Eat a b x) (h2 : Eat b c y) : Eat a c (x ++ y) :=
   ⟨by rw [h1.toks, h2.toks, List.append_assoc], h2.doom.trans h1.doom, h2.w, h2.accept.trans h1.accept,
    h2.recCur.trans h1.recCur, h2.recLimit.trans h1.recLimit⟩
 
-theorem Eat.ofObsEq {s s' : PState} (h : ObsEq s s') (w : W s) : Eat s s' [] :=
+theorem Eat.ofObsEq {s s' : PState} (h : ObsEq s s') (w : TW s) : Eat s s' [] :=
   ⟨by rw [h.toks]; rfl, h.doomed, h.w w, h.accept, h.recCur, h.recLimit⟩
 
-def Good {α : Type} (m : PI α) : Prop := ∀ s a s', W s → m.run s = .ok a s' → Adv s s'
+def Good {α : Type} (m : PI α) : Prop := ∀ s a s', TW s → m.run s = .ok a s' → Adv s s'
 
 theorem good_pure {α : Type} (a : α) : Good (pure a : PI α) := by
   intro s a' s' w h
@@ -66,13 +66,13 @@ theorem good_bind {α β : Type} (m : PI α) (f : α → PI β) (hm : Good m) (h
 
 /-! ### token plumbing -/
 
-theorem peekToken_eat (s s' : PState) (o : Option Tok) (w : W s) (h : peekToken.run s = .ok o s') : Eat s s' [] := by
+theorem peekToken_eat (s s' : PState) (o : Option Tok) (w : TW s) (h : peekToken.run s = .ok o s') : Eat s s' [] := by
   have p := peekToken_obs s s' o w h
   exact ⟨by rw [p.toks]; rfl, p.doom, p.w, p.accept, p.recCur, p.recLimit⟩
 
 theorem good_peekToken : Good peekToken := fun s o s' w h => (peekToken_eat s s' o w h).adv
 
-theorem peek_obs (s s' : PState) (k : Option Kind) (w : W s) (h : peek.run s = .ok k s') :
+theorem peek_obs (s s' : PState) (k : Option Kind) (w : TW s) (h : peek.run s = .ok k s') :
     ∃ o, PeekObs s s' o ∧ k = o.map (·.kind) := by
   obtain ⟨o, s1, h1, h2⟩ := bind_dec peekToken _ s s' k h
   rw [run_pure] at h2
@@ -95,12 +95,12 @@ theorem toks_pop (s s' : PState) (t : Tok) (hc : s.current = some t) (hc' : s'.c
 theorem doomed_same (s s' : PState) (he : s'.errors = s.errors) (hl : s'.lx = s.lx) : Doomed s' ↔ Doomed s := by
   unfold Doomed; rw [he, hl]
 
-theorem w_same (s s' : PState) (w : W s) (he : s'.errors = s.errors) (hl : s'.lx = s.lx)
-    (ha : s'.acceptErrors = s.acceptErrors) : W s' :=
+theorem w_same (s s' : PState) (w : TW s) (he : s'.errors = s.errors) (hl : s'.lx = s.lx)
+    (ha : s'.acceptErrors = s.acceptErrors) : TW s' :=
   ⟨by rw [hl]; exact w.limit, by rw [ha, he]; exact w.acc⟩
 
 /-- `skip_ignored`, one iteration: an ignored current token moves to the pending list -/
-theorem moveCurToPending_spec (s s' : PState) (b : Bool) (w : W s) (h : moveCurToPending.run s = .ok b s') :
+theorem moveCurToPending_spec (s s' : PState) (b : Bool) (w : TW s) (h : moveCurToPending.run s = .ok b s') :
     (b = true ∧ ∃ t, s.current = some t ∧ isIgnoredKind t.kind = true ∧ Eat s s' [t] ∧ s'.current = none)
     ∨ (b = false ∧ s' = s ∧ ∀ t, s.current = some t → isIgnoredKind t.kind = false) := by
   unfold moveCurToPending at h
@@ -129,7 +129,7 @@ theorem moveCurToPending_spec (s s' : PState) (b : Bool) (w : W s) (h : moveCurT
 def Settled (s : PState) : Prop :=
   s.current = (Toks s).head? ∧ ∀ t, s.current = some t → isIgnoredKind t.kind = false
 
-theorem skipIgnoredLoop_spec : ∀ (fuel : Nat) (s s' : PState), W s → (skipIgnoredLoop fuel).run s = .ok () s' →
+theorem skipIgnoredLoop_spec : ∀ (fuel : Nat) (s s' : PState), TW s → (skipIgnoredLoop fuel).run s = .ok () s' →
     ∃ ign, Eat s s' ign ∧ (∀ t ∈ ign, isIgnoredKind t.kind = true) ∧ Settled s'
   | 0, s, s', _, h => by simp [skipIgnoredLoop, PI.outOfFuel] at h
   | fuel + 1, s, s', w, h => by
@@ -154,7 +154,7 @@ theorem skipIgnoredLoop_spec : ∀ (fuel : Nat) (s s' : PState), W s → (skipIg
       refine ⟨[], p.eat, by simp, ?_, hni⟩
       rw [p.current, p.head, p.toks]
 
-theorem skipIgnored_spec (s s' : PState) (w : W s) (h : skipIgnored.run s = .ok () s') :
+theorem skipIgnored_spec (s s' : PState) (w : TW s) (h : skipIgnored.run s = .ok () s') :
     ∃ ign, Eat s s' ign ∧ (∀ t ∈ ign, isIgnoredKind t.kind = true) ∧ Settled s' := by
   unfold skipIgnored at h
   obtain ⟨n, s1, h1, h2⟩ := bind_dec srcLen _ s s' () h
@@ -178,7 +178,7 @@ theorem pushIgnored_obs (s s' : PState) (h : pushIgnored.run s = .ok () s') : Ob
   subst h
   exact ⟨rfl, rfl, rfl, rfl, rfl, rfl⟩
 
-theorem moveCurToTree_spec (kind : SK) (s s' : PState) (w : W s) (h : (moveCurToTree kind).run s = .ok () s') :
+theorem moveCurToTree_spec (kind : SK) (s s' : PState) (w : TW s) (h : (moveCurToTree kind).run s = .ok () s') :
     (∃ t, s.current = some t ∧ Eat s s' [t] ∧ s'.current = none) ∨ (s.current = none ∧ s' = s) := by
   unfold moveCurToTree at h
   simp only [] at h
@@ -194,7 +194,7 @@ theorem moveCurToTree_spec (kind : SK) (s s' : PState) (w : W s) (h : (moveCurTo
     exact Or.inl ⟨t, rfl, ⟨toks_pop _ _ t hc rfl rfl, doomed_same _ _ rfl rfl, w_same _ _ w rfl rfl rfl, rfl, rfl, rfl⟩, rfl⟩
 
 /-- `eat`: the head of the queue goes to the tree (nothing happens on an empty queue) -/
-theorem eat_spec (kind : SK) (s s' : PState) (w : W s) (h : (eat kind).run s = .ok () s') :
+theorem eat_spec (kind : SK) (s s' : PState) (w : TW s) (h : (eat kind).run s = .ok () s') :
     (∃ t rest, Toks s = t :: rest ∧ Eat s s' [t] ∧ s'.current = none) ∨ (Toks s = [] ∧ Eat s s' []) := by
   unfold eat at h
   obtain ⟨_, s1, h1, h2⟩ := bind_dec pushIgnored _ s s' () h
@@ -223,8 +223,8 @@ theorem good_bump (kind : SK) : Good (bump kind) :=
 
 /-! ### errors -/
 
-theorem pushErr_spec (e : PErr) (s s' : PState) (w : W s) (h : (pushErr e).run s = .ok () s') :
-    s'.errors ≠ [] ∧ ObsEq { s with errors := s'.errors } s' ∧ W s' := by
+theorem pushErr_spec (e : PErr) (s s' : PState) (w : TW s) (h : (pushErr e).run s = .ok () s') :
+    s'.errors ≠ [] ∧ ObsEq { s with errors := s'.errors } s' ∧ TW s' := by
   unfold pushErr errUpdate at h
   simp only [] at h
   injection h with _ h
@@ -237,18 +237,18 @@ theorem pushErr_spec (e : PErr) (s s' : PState) (w : W s) (h : (pushErr e).run s
       simp only [ha', Bool.false_eq_true, if_false]; exact w.acc ha'
   exact ⟨hne, ⟨rfl, rfl, rfl, rfl, rfl, rfl⟩, ⟨w.limit, fun _ => hne⟩⟩
 
-theorem pushErr_adv (e : PErr) (s s' : PState) (w : W s) (h : (pushErr e).run s = .ok () s') :
+theorem pushErr_adv (e : PErr) (s s' : PState) (w : TW s) (h : (pushErr e).run s = .ok () s') :
     Adv s s' ∧ Doomed s' := by
   obtain ⟨hne, o, w'⟩ := pushErr_spec e s s' w h
   exact ⟨⟨w', fun _ => Or.inl hne, o.recCur, o.recLimit⟩, Or.inl hne⟩
 
 theorem good_pushErr (e : PErr) : Good (pushErr e) := fun s _ s' w h => (pushErr_adv e s s' w h).1
 
-theorem errAtToken_adv (t : Tok) (s s' : PState) (w : W s) (h : (errAtToken t).run s = .ok () s') :
+theorem errAtToken_adv (t : Tok) (s s' : PState) (w : TW s) (h : (errAtToken t).run s = .ok () s') :
     Adv s s' ∧ Doomed s' := pushErr_adv _ s s' w h
 
 /-- `err` on a non-empty queue records an error -/
-theorem err_adv (s s' : PState) (w : W s) (h : err.run s = .ok () s') :
+theorem err_adv (s s' : PState) (w : TW s) (h : err.run s = .ok () s') :
     Adv s s' ∧ (Toks s ≠ [] → Doomed s') := by
   unfold err at h
   obtain ⟨o, s1, h1, h2⟩ := bind_dec peekToken _ s s' () h
@@ -273,7 +273,7 @@ theorem err_adv (s s' : PState) (w : W s) (h : err.run s = .ok () s') :
 theorem good_err : Good err := fun s _ s' w h => (err_adv s s' w h).1
 
 /-- `limit_err` on a non-empty queue records an error (or errors were already frozen non-empty) -/
-theorem limitErr_adv (s s' : PState) (w : W s) (h : limitErr.run s = .ok () s') :
+theorem limitErr_adv (s s' : PState) (w : TW s) (h : limitErr.run s = .ok () s') :
     Adv s s' ∧ (Toks s ≠ [] → Doomed s') := by
   unfold limitErr at h
   obtain ⟨o, s1, h1, h2⟩ := bind_dec peekToken _ s s' () h
@@ -309,7 +309,7 @@ theorem good_limitErr : Good limitErr := fun s _ s' w h => (limitErr_adv s s' w 
 
 /-- `expect`: either the head of the queue has the expected kind and is bumped, or an error is recorded
     (or the queue is empty and nothing happens) -/
-theorem expect_spec (token : Kind) (kind : SK) (s s' : PState) (w : W s) (h : (expect token kind).run s = .ok () s') :
+theorem expect_spec (token : Kind) (kind : SK) (s s' : PState) (w : TW s) (h : (expect token kind).run s = .ok () s') :
     Adv s s' ∧
     ((Toks s = [] ∧ Eat s s' []) ∨ Doomed s'
       ∨ (∃ t rest ign, Toks s = t :: rest ∧ t.kind = token ∧ Eat s s' (t :: ign)
@@ -358,7 +358,7 @@ theorem good_expect (token : Kind) (kind : SK) : Good (expect token kind) :=
   fun s _ s' w h => (expect_spec token kind s s' w h).1
 
 /-- ty.rs `Err(Some(p.pop()))` -/
-theorem popDrop_spec (s s' : PState) (o : Option Tok) (w : W s) (h : popDrop.run s = .ok o s') :
+theorem popDrop_spec (s s' : PState) (o : Option Tok) (w : TW s) (h : popDrop.run s = .ok o s') :
     Adv s s' ∧ o = s.current := by
   unfold popDrop at h
   simp only [] at h
@@ -446,7 +446,7 @@ theorem good_withRec {α : Type} (onLimit body : PI α) (h1 : Good onLimit) (h2 
   rcases withRec_dec onLimit body s s' a h with ⟨_, s1, o, hr⟩ | ⟨_, s1, s2, c1, l1, e1, a1, r1, rl1, hr, c2, l2, e2, a2, r2, rl2⟩
   · have ad := (Eat.ofObsEq o w).adv
     exact ad.trans (h1 s1 a s' ad.w hr)
-  · have w1 : W s1 := w_same _ _ w e1 l1 a1
+  · have w1 : TW s1 := w_same _ _ w e1 l1 a1
     have ad := h2 s1 a s2 w1 hr
     refine ⟨w_same _ _ ad.w e2 l2 a2, ?_, ?_, ?_⟩
     · intro hd
